@@ -67,14 +67,15 @@ def run(ck):
         yv = xr.make_y(task, Xv, rng) if nv > 0 else y[:0]
         if nv == 0:
             Xv = Xv[:0]
-        desc = dict(i=i, task=task, n=n, L=L, d=d, refill=refill, nval=nv, f=f, method=method, tree_iters=tree_iters, tied_projections=tied, agop_budget=(7 if i % 5 == 2 else None), seed=ck.seed)
+        desc = dict(i=i, task=task, n=n, L=L, d=d, refill=refill, nval=nv, f=f, method=method, tree_iters=tree_iters, tied_projections=tied, agop_budget=(7 if i % 5 == 2 else None), n_trees=(3 if (i % 4 == 1 and not tree_iters) else 1), seed=ck.seed)
         # proviso of the property: every leaf must end up with a non-empty validation set.
         xr.seed_all(7000 + i + ck.seed)
         leaf_params = xr.default_rfm_params(iters=(1 if (tree_iters or i % 5 == 2) else 0), reg=1e-2)
         if i % 5 == 2:
             leaf_params['fit']['total_points_to_sample'] = 7        # AGOP sampling budget below the leaf size (leaves of more than 7 rows)
         model = xr.xRFM(rfm_params=leaf_params, max_leaf_size=L, split_method=method,
-                        overlap_fraction=f, verbose=False, use_temperature_tuning=False, refill_size=refill, n_tree_iters=tree_iters, **kwm)
+                        overlap_fraction=f, verbose=False, use_temperature_tuning=False, refill_size=refill, n_tree_iters=tree_iters,
+                        n_trees=(3 if (i % 4 == 1 and not tree_iters) else 1), **kwm)        # every fourth fit builds an ensemble: the refill rule holds in EVERY tree
         Xt, yt = torch.tensor(X), torch.tensor(y)
         rec = xr.fit_recorded(model, Xt, yt, torch.tensor(Xv), torch.tensor(yv), timeout=120, tolerate_empty_val=True)
         if rec.error is not None:
@@ -120,8 +121,11 @@ def run(ck):
                     exp = 0
                 else:
                     exp = min(refill - nrouted, m_recv // 5)
-                if len(moved) != exp:
-                    probs.append(f'leaf with {m_recv} samples and {nrouted} routed validation points moved {len(moved)} samples, rule says {exp} (refill size {refill})')
+                if len(moved) > exp:
+                    probs.append(f'leaf with {m_recv} samples and {nrouted} routed validation points moved {len(moved)} samples, at most {exp} are allowed (refill size {refill})')
+                elif len(moved) != exp:
+                    # fewer than the rule allows: not a violation of the statement ("at most"); the Coq checker below (a model of the code's rule) will disagree
+                    ck.count('leaf moved fewer samples than the refill rule allows')
                 if set(moved) & set(lf['kept']):
                     probs.append(f'samples {sorted(set(moved) & set(lf["kept"]))[:5]} are both centers and leaf validation')
                 if sorted(moved + lf['kept']) != sorted(lf['ids']):
